@@ -33,8 +33,8 @@ ITER_SCOPE = scope_prefix("instruction::reduce::", "<instruction::reduce::", "in
 STDLIB_SCOPE = scope_prefix("stdlib::", "<stdlib::", "variable::try_from::", "<variable::Variable as std::convert::From<std::io")
 
 prop("C01",
-     [guard.run, guard.run_mustcall, misc.run_fnexit, misc.run_looptype, misc.run_slicetype, misc.run_celltype, queryguard.run, fold.run, scope.run, round3.run_meetuse, round3.run_assigntyping, round3.run_cellmember, lock.run_global],
-     "Also R-GLOBAL: no cache of parse results outlives the scope they were checked against. Also: Type::conjoin (a mere lower bound) is used only for parameter types (R-MEETUSE); `X=` is typed with the typing functions of X (R-ASSIGNTYPING). Decides the structural half of type soundness: all 43 static checks the soundness argument leans on exist, are tested "
+     [guard.run, guard.run_mustcall, misc.run_fnexit, misc.run_looptype, misc.run_slicetype, misc.run_celltype, queryguard.run, fold.run, scope.run, round3.run_meetuse, round3.run_assigntyping, round3.run_cellmember, lock.run_global, round4.run_fnlocal],
+     "R-FNLOCAL: the scope entry of a function literal carries its result type. Also R-GLOBAL: no cache of parse results outlives the scope they were checked against. Also: Type::conjoin (a mere lower bound) is used only for parameter types (R-MEETUSE); `X=` is typed with the typing functions of X (R-ASSIGNTYPING). Decides the structural half of type soundness: all 43 static checks the soundness argument leans on exist, are tested "
      "before every success value of their creation function and cannot be bypassed (R-GUARD, R-MUSTCALL); falling off a function "
      "body yields () and MissingReturn stands in front of that for non-() functions (R-FNEXIT); the Type queries that compute "
      "result types treat all union members alike (R-FOLD); no operator runs a callee in the caller's scope (R-SCOPE). It does NOT "
